@@ -56,6 +56,8 @@ ORDER_EDGES = [
     ("strip", "set_pos", "function words with adjacent punctuation are not recognised"),
     ("lower", "set_pos", "upper-case function words are not recognised (look-up table holds lower-case spellings)"),
     ("lower", "set_stem", "the stemmer sees upper-case letters and leaves the word unstemmed"),
+    ("lower", "set_char_classes", "the language's class table holds lower-case letters only: an upper-case letter gets class Any and "
+                                   "its typo costs differ from the lower-case spelling"),
 ]
 
 
